@@ -92,15 +92,15 @@ M = [
  ("seek-lands-after", "src/page_node.rs",
   "                i = i.saturating_sub(1);\n                (i, false)",
   "                (i, false)",
-  ["C08", "C01"], "binary search returns the slot after an absent key"),
+  ["C01", "C08"], "binary search returns the slot after an absent key (a legal seek neighbour, but puts and gets go to the wrong child)"),
  ("range-end-inclusive", "src/cursor.rs",
   "                Bound::Excluded(e) => {\n                    if data.key() < *e {",
   "                Bound::Excluded(e) => {\n                    if data.key() <= *e {",
   ["C08"], "excluded end bound treated as included"),
  ("kv-filter-stops-at-bucket", "src/cursor.rs",
   "        for data in self.i.by_ref() {\n            if let Data::KeyValue(kv) = data {\n                return Some(kv);\n            }\n        }\n        None",
-  "        for data in self.i.by_ref() {\n            if let Data::KeyValue(kv) = data {\n                return Some(kv);\n            } else if self.i.size_hint().1 == Some(usize::MAX) {\n                return None;\n            }\n        }\n        match self.i.next() {\n            Some(Data::KeyValue(kv)) => Some(kv),\n            _ => None,\n        }",
-  ["C08"], "kv_pairs gives up early after a run of buckets"),
+  "        let mut skipped = 0;\n        for data in self.i.by_ref() {\n            if let Data::KeyValue(kv) = data {\n                return Some(kv);\n            }\n            skipped += 1;\n            if skipped >= 2 {\n                break;\n            }\n        }\n        None",
+  ["C08"], "kv_pairs gives up after two consecutive nested buckets"),
  ("delete-skips-readonly-check", "src/bucket.rs",
   "    pub fn delete<T: AsRef<[u8]>>(&self, key: T) -> Result<KVPair> {\n        if !self.writable {\n            return Err(Error::ReadOnlyTx);\n        }",
   "    pub fn delete<T: AsRef<[u8]>>(&self, key: T) -> Result<KVPair> {",
